@@ -512,7 +512,7 @@ def run(info, out):
     for n, prm in enumerate(tables):
         fails += check_table(env, prm, rng.fork("table%d" % n), tier)
     searched = 0
-    if not info["proof_ok"] and not fails:
+    if not info["proof_ok"] and not [f for f in fails if f[0] not in open_signatures("C08")]:      # a reproduced known finding is not a failing input
         for i in range(40):
             fails += check_table(env, random_params(rng.fork("search%d" % i), "thorough"), rng.fork("s%d" % i), tier)
             searched += 1
